@@ -2,6 +2,7 @@ package main
 
 import (
 	"bytes"
+	"crypto/sha256"
 	"fmt"
 	"go/build"
 	"go/build/constraint"
@@ -335,21 +336,44 @@ func (rn *runner) caseSB(content []byte, tags []string, src string) {
 			nb++
 		}
 	}
-	res.Case("sb:"+string(content)+"|"+strings.Join(tags, ","), nb > 0)
+	if len(content) > 20000 {
+		// (the key of a large case is its digest)
+		h := sha256.Sum256(content)
+		res.Case(fmt.Sprintf("sb:%d:%x|%s", len(content), h[:12], strings.Join(tags, ",")), nb > 0)
+	} else {
+		res.Case("sb:"+string(content)+"|"+strings.Join(tags, ","), nb > 0)
+	}
 	res.Count("sb:impl:" + impl)
 	res.Count(fmt.Sprintf("sb:+build-lines-in-header:%d", min(nb, 3)))
 	want := fmt.Sprint(docShouldBuild(content, tm))
 	if impl != want {
+		// a large input gets a bounded number of shrinking steps (every step re-reads all of it)
+		budget := 1 << 30
+		if len(content) > 5000 {
+			budget = 150
+		}
 		rn.violate("ShouldBuild/documented-rule", content, extra, impl, want,
 			"ShouldBuild differs from the documented +build rules",
-			func(c []byte) bool { return implSB(c, tags) != fmt.Sprint(docShouldBuild(c, tm)) })
+			func(c []byte) bool {
+				if budget--; budget < 0 {
+					return false
+				}
+				return implSB(c, tags) != fmt.Sprint(docShouldBuild(c, tm))
+			})
 	}
 	if cr, ok := constraintShouldBuild(content, tm); ok {
 		res.Count("sb:oracle:go/build/constraint")
 		if impl != fmt.Sprint(cr) {
+			budget := 1 << 30
+			if len(content) > 5000 {
+				budget = 150
+			}
 			rn.violate("ShouldBuild/constraint", content, extra, impl, fmt.Sprint(cr),
 				"ShouldBuild differs from go/build/constraint (Parse + Eval with android=>linux) on the header's +build lines",
 				func(c []byte) bool {
+					if budget--; budget < 0 {
+						return false
+					}
 					r, ok := constraintShouldBuild(c, tm)
 					return ok && implSB(c, tags) != fmt.Sprint(r)
 				})
@@ -368,7 +392,11 @@ func (rn *runner) caseSB(content []byte, tags []string, src string) {
 		}
 	}
 	if rn.seen%2003 == 1 {
-		res.Sample(map[string]any{"fn": "ShouldBuild", "content": string(content), "tags": tags, "impl": impl})
+		res.Sample(map[string]any{"fn": "ShouldBuild", "content": clip(string(content)), "tags": tags, "impl": impl})
+	}
+	if len(content) > sbModelMax {
+		res.Count("sb:model-skipped(large input)")
+		return
 	}
 	if !modelable(content) {
 		res.Count("sb:not-modelled(tag letters >= U+0250)")
@@ -576,6 +604,13 @@ func runC19(rn *runner) {
 			}
 		}
 	}
+	// 3b. sizes past internal limits
+	for i, lb := range largeBlocks(f.Tier) {
+		for _, ts := range largeTagSetsFor(f.Tier, i) {
+			res.Count("sb:large:" + strings.SplitN(lb.name, "/", 2)[0])
+			rn.caseSB([]byte(lb.content), ts, "large")
+		}
+	}
 	// 4. malformed stream: random bytes over a +build alphabet
 	nRand := 5000
 	if f.Tier == "thorough" {
@@ -641,7 +676,7 @@ func runC19(rn *runner) {
 	}
 	runScan(rn, nDirs)
 	res.Exhaustive = false
-	res.Rule = fmt.Sprintf("corpus; MatchFile: every name of 1..4 '_'-joined segments over %q (+.go) (%d names), hand-picked names and every documented OS/arch token, each under %d tag sets; ShouldBuild: %d generated leading blocks (valid, negated and malformed terms, blank-line placement, non-+build comments, /* */ blocks, CR, NBSP) under random tag sets, all single/paired terms of the vocabulary under %d tag sets, %d random byte strings over a +build alphabet. Non-trivial: a name containing '_' / a content with a +build line inside the header. Oracles: documented rule re-stated in Go (all cases), go/build/constraint and go/build.Context.MatchFile on their common domain (no tags[\"*\"], no unix/cgo/ios/illumos/go1.x/wasip1 tags, no negated malformed term, no malformed term when tags[\"ignore\"], no //go:build, base name not starting with '_' or '.'). TrimSpace/Fields: the model's trim_space and fields against bytes.TrimSpace and strings.Fields on every byte string of length <= 2 and on strings of length 3-4 over the bytes of the UTF-8 Unicode spaces and their neighbours. Consumers: "+scanRule,
+	res.Rule = fmt.Sprintf("corpus; MatchFile: every name of 1..4 '_'-joined segments over %q (+.go) (%d names), hand-picked names and every documented OS/arch token, each under %d tag sets; ShouldBuild: %d generated leading blocks (valid, negated and malformed terms, blank-line placement, non-+build comments, /* */ blocks, CR, NBSP) under random tag sets, all single/paired terms of the vocabulary under %d tag sets, %d random byte strings over a +build alphabet; "+largeRule()+". Non-trivial: a name containing '_' / a content with a +build line inside the header. Oracles: documented rule re-stated in Go (all cases), go/build/constraint and go/build.Context.MatchFile on their common domain (no tags[\"*\"], no unix/cgo/ios/illumos/go1.x/wasip1 tags, no negated malformed term, no malformed term when tags[\"ignore\"], no //go:build, base name not starting with '_' or '.'). TrimSpace/Fields: the model's trim_space and fields against bytes.TrimSpace and strings.Fields on every byte string of length <= 2 and on strings of length 3-4 over the bytes of the UTF-8 Unicode spaces and their neighbours. Consumers: "+scanRule,
 		nameSegs, count, len(nameTagSets), nBlocks, len(small), nRand)
 }
 
